@@ -142,6 +142,22 @@ func (c19) Generate(r *engine.Rand, index int, tier string) *engine.Scenario {
 		}
 		sc.Events = append(sc.Events, engine.Event{At: at, K: "bus_w", A: a, V: v})
 	}
+	// Whether the sweep unit's internal state (enabled flag, shadow frequency, timer) survives a
+	// power cycle is not documented, and it decides later overflows: schedules that power the
+	// unit off do not use the sweep at all.
+	powerOff := false
+	for _, e := range sc.Events {
+		if e.A == 0xff26 && e.V&0x80 == 0 {
+			powerOff = true
+		}
+	}
+	if powerOff {
+		for i := range sc.Events {
+			if sc.Events[i].A == 0xff10 {
+				sc.Events[i].V = negate
+			}
+		}
+	}
 	sc.Cycles = span + 300
 	return sc
 }
